@@ -212,6 +212,9 @@ def _encode(s: str) -> str:
     """
     s = s.replace("%", "%25")
     s = s.replace("/", "%2F")
+    if s in (".", ".."):
+        # "." and ".." would be interpreted by the storage backend
+        s = s.replace(".", "%2E")
     return s
 
 
